@@ -669,7 +669,7 @@ class IGMPv3(object):
         """
         query_type = 0x11
         max_resp_time_2p4s = 0x18
-        cksum = 0xECD3
+        cksum = 0xECC7
         mc_addr = "0.0.0.0"
         sts = 0x2
         qqic = 0x20
